@@ -5,7 +5,7 @@ RULE = ("logs of 1..40 events (quick) / ..150 (thorough) built by random Add/Add
         "neighbours; at the final state every event; each in-range answer is put on the wire and verified against snapshot(q).history and snapshot(current).hyper. "
         "distinct = (case, state, event, version); non-trivial = existence answer with a non-empty history path; "
         "hyperb: the hyper tree alone - after every Add/AddBulk/reopen three searches (a stored key, a key sharing a long prefix, a random key) through "
-        "HyperTree.QueryMembership, value and audit path compared with the batch-level Coq search (HyperBatch.bfind)")
+        "HyperTree.QueryMembership, value and audit path compared with the batch-level Coq search (HyperBatch.bfind) clientv: the real client.HTTPClient (MembershipAutoVerify, MembershipDigest+MembershipVerify, IncrementalAutoVerify, Incremental+IncrementalVerify) over JSON against an authentic snapshot store and a server that is honest, answers for other versions/pairs, relabels them, presents the proof of a stored event for a never-added digest sharing its prefix (incl. a 64-byte audit entry), a proof of absence for a present event, tampered fields, or serves a forked log; logs of ~12, ~35 and >1040 events (two-digit heights on the wire); oracle: the published log.")
 
 
 def run(v, tier, seed, replay):
@@ -22,6 +22,7 @@ def run(v, tier, seed, replay):
                         dict(kind="correspondence", theorem="C01_membership_complete is about Balloon/Balloon.v; its correspondence with balloon/, balloon/history, balloon/hyper no longer checks", mismatches=mism, seed=seed, tier=tier), no_input=True)
     finally:
         s.cleanup()
+    common.client_entry_points(v, "C01", tier, seed, ('C01',))
     common.hyperb_tie(v, "C01", tier, seed, "C01_hyper_batch_search_is_the_published_search is about Hyper/HyperBatch.v (bfind); its correspondence with balloon/hyper/search.go no longer checks")
     v.coverage["trusted_base"] = vlib.TRUSTED_COMMON + [
         "no hypothesis on the hash function in C01_membership_complete; instance hypotheses (key length, injective key bits, value codec round trip, boolean equalities) hold at the SHA-256 instance by construction and are exercised by the correspondence",
